@@ -166,6 +166,23 @@ class Body:
             metas = self.fn.get("inlined") or []
             self._ps_building = True
             tracked = {m["dest_local"] for m in metas if m.get("dest_local") is not None}
+            # a value defined once whose variant is tested more than once (`if !matches!(v, A) {..}  if matches!(v, B) {..}`):
+            # the edge taken at the first test is remembered at the second
+            cnt = {}
+            for sb in self.switch_blocks():
+                e = self.cond(sb)
+                if e[0] == "discr" and not e[1]["p"] and len(self.defs.get(e[1]["l"], [])) == 1:
+                    cnt[e[1]["l"]] = cnt.get(e[1]["l"], 0) + 1
+            tracked |= {l for l, n in cnt.items() if n >= 2}
+            # an Option / Result built as a literal variant in each arm of an earlier decision and tested later
+            # (`let v = match sign() { Ok(s) => Some(..), Err(_) => None }; if let Some(v) = v {..}`)
+            for sb in self.switch_blocks():
+                e = self.cond(sb)
+                if e[0] == "discr" and not e[1]["p"]:
+                    ds_ = self.defs.get(e[1]["l"], [])
+                    if len(ds_) >= 2 and all(k_ == "assign" and not pl_["lhs"]["p"] and pl_["rv"]["k"] == "agg" and pl_["rv"].get("variant") in STD_VARIANTS
+                                             for (_b, _s, k_, pl_) in ds_):
+                        tracked.add(e[1]["l"])
             changed = True
             while changed:
                 changed = False
@@ -630,6 +647,9 @@ class Body:
                             from_operand(a_[1], path, d - 1)
                         if cc in ("unwrap_or_else",) and not opaque:
                             from_operand(a_[0], path, d - 1)
+                            continue
+                        if cc in ("map", "and_then") and not opaque and path[:1] in (("@Ok",), ("@Some",), ("@+",)):
+                            # the payload of `x.map(f)` is what f returns - not x's payload
                             continue
                         if cc in ("map_or", "map_or_else"):
                             if opaque:
